@@ -35,11 +35,12 @@ func (t *litTree) term(w int, intSort bool) Val {
 
 type TV struct {
 	Val
-	Tree     *litTree   // ite over untyped literals
-	Ty       types.Type // Go type if known
-	Lit      *big.Int   // untyped integer literal
-	Unsigned bool       // for spec bit-vectors without a Go type
-	IsNil    bool       // untyped nil
+	Tree     *litTree                 // ite over untyped literals
+	Ty       types.Type               // Go type if known
+	Lit      *big.Int                 // untyped integer literal
+	Unsigned bool                     // for spec bit-vectors without a Go type
+	IsNil    bool                     // untyped nil
+	Abs      func(idx TV) (TV, error) // array-valued ghost field replaced by its abstraction (pointwise access only)
 }
 
 func (t TV) signed() bool {
@@ -787,6 +788,9 @@ func (c *EvalCtx) evalIndex(x *SIndex) (TV, error) {
 	i, err := c.eval(x.I)
 	if err != nil {
 		return TV{}, err
+	}
+	if s.Abs != nil {
+		return s.Abs(i)
 	}
 	switch {
 	case s.S == SSlice:
